@@ -147,7 +147,7 @@ pub fn c18(opts: &Opts, out: &mut Out) {
     }
     // (b) histories: random interleavings with repeats and unrelated calls in between
     let mut rng = chacha(opts.seed, 18);
-    let nh = if opts.thorough { 40 } else { 8 };
+    let nh = if opts.thorough { 40 } else { 16 };
     for hnum in 0..nh {
         let len = 3 + (rng.next_u32() % 6) as usize;
         let hist: Vec<usize> = (0..len).map(|_| (rng.next_u32() as usize) % ncalls).collect();
